@@ -104,7 +104,12 @@ def _evaluate2(case, stages, viols, info):
                         continue
                     viols.append({"kind": "opt_raises:" + exc_kind(e), "detail": f"stage={stage} method={method}: {short(e)}"})
                     continue
-                if typ.defined and not typ.approx:
+                if method == "disk" and any("order_through_shuffle" in O.OPS[n].tags for n in ops):
+                    # the operation carries its rows through a shuffle and its VALUE depends on their order inside a group
+                    # (groupby ffill / bfill / shift): under the disk shuffle that order is run-dependent
+                    # (KF-disk-shuffle-row-order, decided under C10), so only the schema is compared here
+                    reason = _schema_only(ref, res)
+                elif typ.defined and not typ.approx:
                     # the disk (partd) shuffle hands rows back in a run-dependent order (recorded finding
                     # KF-disk-shuffle-row-order): under that method results are compared as multisets
                     reason = compare(ref, res, ordered=typ.ordered and method != "disk", labelled=typ.labelled)
